@@ -40,12 +40,24 @@ class Runner:
             for src, nm in claimers:
                 d.decode_tcp(traffic.render({"pgn": 60928, "src": src, "dest": 255, "data": nm.to_bytes(8, "little")}))
             self.decs.append(d)
+        # one more decoder that always works with the library's DEBUG logging enabled
+        self.debug_dec = NMEA2000Decoder(build_network_map=True)
+        for src, nm in claimers:
+            self.debug_dec.decode_tcp(traffic.render({"pgn": 60928, "src": src, "dest": 255, "data": nm.to_bytes(8, "little")}))
+        self.decs.append(self.debug_dec)
         self.off = NMEA2000Decoder(build_network_map=False)
         self.by_hash = {}
         self.by_key = {}
         self.probe = []
 
     def decode(self, dec, d, payload, nbytes, src, dest, prio):
+        if dec is self.debug_dec:
+            from ..common import debug_logging
+            with debug_logging():
+                return self._decode(dec, d, payload, nbytes, src, dest, prio)
+        return self._decode(dec, d, payload, nbytes, src, dest, prio)
+
+    def _decode(self, dec, d, payload, nbytes, src, dest, prio):
         try:
             return dec.decode_basic_string(gen.basic_string(d.pgn, payload, nbytes, src=src, dest=dest, prio=prio), already_combined=True)
         except Exception:
